@@ -3,6 +3,10 @@ engine, natively under CPython) under the class invariant as assumption, so the 
 from pyvc.spec import *  # noqa
 from pyvc.sources import NS
 
+# properties whose cases run THROUGH the location layer: the unbounded location contracts (point maps, constructor,
+# _combine_blocks) are re-proved under each of them, so that a change inside one of these callees fails the property
+# being checked and not only C01 / C02 (verification is modular: a caller is only as good as its callee's contract)
+GENE_LAYER = ("C03", "C04", "C05", "C06", "C07", "C09", "C11", "C13", "C14", "C17", "C20")
 STRAND = "location.strand.Strand"
 SINGLE = "location.location_impl.SingleInterval"
 COMPOUND = "location.location_impl.CompoundInterval"
@@ -171,7 +175,7 @@ _uid = [0]
 def mk_compound_obj(e, starts, ends, strand, parent, name=None, sorted_fact=True):
     """Engine Obj of class CompoundInterval over the SLists ``starts``/``ends`` (same length term) with the class
     invariant assumed: 0 <= s_j <= e_j, sortedness (if ``sorted_fact``), length = sum of block lengths (spec functions
-    cum / pre with their recursive axioms), start = s_0, end = e_{n-1}."""
+    cum / pre with their recursive axioms), start = s_0, end = max_j e_j."""
     import z3
     from pyvc.values import Obj
     if name is None:
@@ -207,8 +211,15 @@ def mk_compound_obj(e, starts, ends, strand, parent, name=None, sorted_fact=True
     else:
         pre = cum
     cls = e.repo.find(COMPOUND)
+    # end = the LARGEST block end (blocks may nest, so this need not be the end of the last block in sort order):
+    # an upper bound of every end that is attained (witness index $endw)
+    end = z3.Int(name + "_end")
+    endw = z3.Int(name + "_endw")
+    e.assume(z3.ForAll([j], z3.Implies(z3.And(j >= 0, j < n), Ea[j] <= end), patterns=[Ea[j]]))
+    e.assume(z3.And(0 <= endw, endw < n, Ea[endw] == end))
     obj = Obj(cls, dict(_starts=starts, _ends=ends, strand=strand, parent=parent, _single_interval_store=None,
-                        _is_overlapping=None, length=cum(n), start=Sa[0], end=Ea[n - 1]))
+                        _is_overlapping=None, length=cum(n), start=Sa[0], end=end))
+    obj.attrs["$endw"] = endw
     obj.attrs["$cum"] = cum
     obj.attrs["$pre"] = pre
     return obj
